@@ -296,6 +296,9 @@ def run_faulty(ctx, root, opts, loaded, n_pairs):
     check("top-level string", raw='"abc"')
     check("top-level number", raw="5")
     check("top-level null", raw="null")
+    # nested too deeply for the reader (RecursionError inside json5; was an InternalError answer to initialize, fixed in /repo)
+    check("5000 unclosed brackets", raw="[" * 5000)
+    check("a value nested 3000 deep", raw='{"a": ' + "[" * 3000 + "]" * 3000 + "}")
     check("explicit missing file", raw="<missing>", config_name="custom.json")
     check("directory in place of the explicit file", raw="<dir>", config_name="custom.json")
     check("default file absent", raw="<missing>", expect_msg=False)
